@@ -5,6 +5,7 @@ import (
 	"fmt"
 	"os"
 
+	"verifharness/disc"
 	"verifharness/ec"
 	"verifharness/ka"
 	"verifharness/kms"
@@ -25,6 +26,7 @@ var checks = map[string]func(*vk.Run){
 	"C09": rp.RunC09,
 	"C17": rp.RunC17,
 	"C20": kms.RunC20,
+	"C16": disc.RunC16,
 }
 
 func main() {
